@@ -16,3 +16,37 @@ package pkgload
 
 //@ func ParseMethodString
 //@   props C13
+
+// ---- C14: the context parameters of a function are exactly the `context NAME` settings of that
+// ---- function's own doc comment (nothing leaks from another declaration of the file or package) ----
+//@ func PackageLoader.localConfig
+//@   props C14
+//@   loop 3 invariant forall k string :: has(contexts, k) ==> parse.DeclaresContext(lines, k)
+//@   loop 3 invariant forall j int :: 0 <= j && j < idx && parse.IsContextLine(lines[j]) ==> has(contexts, parse.ContextName(lines[j]))
+//@   assigns map(g.locals)
+
+// ---- C14: the per-use parse options reach method.Parse unchanged, together with the local options of
+// ---- exactly the function that is being parsed; nothing but the loader's own cache is written ----
+//@ func PackageLoader.getOneParsed
+//@   props C14
+//@   propagates
+//@   assigns map(g.locals)
+//@   at@C14 call method.Parse#1 assert arg0 == obj && arg1 == opts
+//@   at@C14 call g.localConfig#1 assert arg0 == pkg && arg1 == name
+
+//@ func PackageLoader.GetOne
+//@   props C14
+//@   propagates
+//@   assigns map(g.locals)
+//@   at@C14 call g.getOneParsed#1 assert arg2 == opts
+
+//@ func PackageLoader.GetOneRaw
+//@   props C14
+//@   assigns nothing
+//@   ensures err == nil ==> result1 != nil
+
+//@ func PackageLoader.getPkg
+//@   assigns nothing
+
+//@ func PackageLoader.GetUncheckedPkg
+//@   pure
